@@ -3,7 +3,7 @@
    scripted upstream (harness/src/bin/d01.rs).  One history per line:
      1 <rules> <table> cur prev nsteps step*
    <rules> as in EntryC08 (count, rules), <table> as in EntryC15, cur/prev: the cookie keys
-   step = t_s t_ns_s t_ns_ns <client addr> port tcp <local addr> b1 b2 <nsid> <issued> <query octets>
+   step = t_s t_ns_s t_ns_ns t_ins_s t_ins_ns <client addr> port tcp <local addr> b1 b2 <nsid> <issued> <query octets>
           nup {srv tcp <octets>}*                    upstream queries seen, in order
           <udp answer> <tcp answer>                  what the scripted upstream sent: 0 | 1 <octets>
           <reply>                                    what the client got: 0 | 1 <octets>
@@ -34,13 +34,13 @@ Definition tok_upq (ts : list N) : option (upq * list N) :=
   end.
 
 Record dstep := {
-  d_ts : N; d_tns : N; d_client : Acl.addr; d_port : N; d_tcp : bool; d_local : Acl.addr;
+  d_ts : N; d_tns : N; d_tins : N; d_client : Acl.addr; d_port : N; d_tcp : bool; d_local : Acl.addr;
   d_b1 : N; d_b2 : N; d_nsid : list N; d_issued : list N; d_query : list N; d_ups : list upq;
   d_udp : option (list N); d_tcpa : option (list N); d_reply : option (list N) }.
 
 Definition tok_step (ts : list N) : option (dstep * list N) :=
   match ts with
-  | t_s :: ns_s :: ns_ns :: r =>
+  | t_s :: ns_s :: ns_ns :: ni_s :: ni_ns :: r =>
     match tok_addr r with
     | Some (cl, port :: tcp :: r) =>
       match tok_addr r with
@@ -55,7 +55,7 @@ Definition tok_step (ts : list N) : option (dstep * list N) :=
             match tok_optbytes r with Some (ta, r) =>
             match tok_optbytes r with Some (rep, _ :: r) =>
             match tok_bytes r with Some (_, r) =>
-              Some ({| d_ts := t_s; d_tns := ns_s * 1000000000 + ns_ns; d_client := cl; d_port := port;
+              Some ({| d_ts := t_s; d_tns := ns_s * 1000000000 + ns_ns; d_tins := ni_s * 1000000000 + ni_ns; d_client := cl; d_port := port;
                        d_tcp := negb (tcp =? 0); d_local := lo; d_b1 := b1; d_b2 := b2; d_nsid := nsid; d_issued := iss; d_query := q;
                        d_ups := ups; d_udp := ua; d_tcpa := ta; d_reply := rep |}, r)
             | None => None end
@@ -199,13 +199,13 @@ Fixpoint run_steps (rules : list Acl.rule) (rt : DnsRoute.table) (cur : list N) 
       | Ok qq =>
         if negb (lenN (d_ups s) =? 0) && (qclass qq =? 1) then
           match fst (out_query (d_tcp s) id u) with
-          | UOk m => (key_of qq, (d_tns s, m)) :: filter (fun e => negb (DnsCache.key_eqb (key_of qq) (fst e))) (a_fetch a)
+          | UOk m => (key_of qq, (d_tins s, m)) :: filter (fun e => negb (DnsCache.key_eqb (key_of qq) (fst e))) (a_fetch a)
           | UErr _ => filter (fun e => negb (DnsCache.key_eqb (key_of qq) (fst e))) (a_fetch a)
           end
         else a_fetch a
       | _ => a_fetch a
       end in
-    match dns_step mac c st (d_tns s) (d_ts s) (d_client s) (d_port s) (d_local s) (d_tcp s)
+    match dns_step mac c st (d_tns s) (d_tins s) (d_ts s) (d_client s) (d_port s) (d_local s) (d_tcp s)
                    (d_query s) u id eo with
     | Ok (st', out, qs) =>
       let ok := opt_eqb bytes_eqb out (d_reply s) && list_eqb upq_eqb qs (d_ups s) in
